@@ -297,11 +297,11 @@ func genRep(o *hlib.Out) {
 		h     int64
 	}
 	for _, c := range []rc{
-		{20000, 25000, 995, 3},  // 20000*995 = bound exactly; framing 60000 <= margin
-		{20000, 20001, 100, 3},  // count stops it
-		{20000, 21000, 996, 3},  // size stops it just before the count
-		{40000, 40000, 497, 3},  // framing 3*40000 > margin: encoded block > MaxBlockSize (finding 3)
-		{34000, 34000, 585, 3},  // guard violated, still inside MaxBlockSize
+		{20000, 25000, 995, 3}, // 20000*995 = bound exactly; framing 60000 <= margin
+		{20000, 20001, 100, 3}, // count stops it
+		{20000, 21000, 996, 3}, // size stops it just before the count
+		{40000, 40000, 497, 3}, // framing 3*40000 > margin: encoded block > MaxBlockSize (finding 3)
+		{34000, 34000, 585, 3}, // guard violated, still inside MaxBlockSize
 	} {
 		cfg := cfgSpec{Base: c.maxtx, V1: c.maxtx, V2: c.maxtx, H1: 0, H2: 0, HBl: -1, HTx: 0, TxHeight: true, Low: 200, High: 600}
 		p := txSpec{ID: newID(), Pay: 100}
